@@ -2,6 +2,7 @@ package main
 
 import (
 	"fmt"
+	"go/constant"
 	"go/token"
 	"go/types"
 	"net/http"
@@ -54,6 +55,7 @@ func runC07(c *Ctx) {
 	f := p.Fn("rt/middleware.NegotiateContentType")
 	negotiateSelection(c, "R07.1", "R07.2")
 	negotiateMatchers(c, "R07.6")
+	ruleOffersDefaultLast(c, "R07.1")
 
 	// NegotiateContentEncoding
 	fe := p.Fn("rt/middleware.NegotiateContentEncoding")
@@ -67,6 +69,61 @@ func runC07(c *Ctx) {
 			return ok && ia.X == ssa.Value(fe.Params[1])
 		})
 		c.obI("R07.1", r, "encoding-result-is-an-offer", ok, "NegotiateContentEncoding returns an element of offers, \"identity\" or \"\"", "origin "+describeOrigin(bad))
+	}
+	// encoding: offers in order x every range, strict improvement only (ties go to the earlier offer)
+	{
+		encSpecs := callsIn(fe, "rt/middleware/header.ParseAccept")
+		if len(encSpecs) == 1 {
+			in := sliceLoops(fe, vIs(encSpecs[0].Value()))
+			out := sliceLoops(fe, vIs(fe.Params[1]))
+			c.obRF("R07.2", fe, "encoding-loops", len(in) == 1 && len(out) == 1, "NegotiateContentEncoding iterates offers x ranges", fmt.Sprintf("%d/%d loops", len(out), len(in)))
+			if len(in) == 1 && len(out) == 1 {
+				offersByRanges(c, "R07.2", fe, out[0], in[0])
+				// an encoding displaces the best one so far only when its range's q is strictly higher
+				isQ := vFieldLoad(acceptSpecT, "Q", nil)
+				strictly := func(cond ssa.Value, branch bool) bool {
+					cnd, b := stripNot(cond, branch)
+					bo, ok := cnd.(*ssa.BinOp)
+					if !ok {
+						return false
+					}
+					switch {
+					case isQ(bo.X):
+						return bo.Op == token.GTR && b || bo.Op == token.LEQ && !b
+					case isQ(bo.Y):
+						return bo.Op == token.LSS && b || bo.Op == token.GEQ && !b
+					}
+					return false
+				}
+				isOfferElem := func(o Origin) bool {
+					ad, ok := derefLoad(o.V)
+					if !ok {
+						return false
+					}
+					ia, ok := ad.(*ssa.IndexAddr)
+					return ok && ia.X == ssa.Value(fe.Params[1])
+				}
+				nSel := 0
+				for _, ins := range instrs(fe) {
+					phi, ok := ins.(*ssa.Phi)
+					if !ok {
+						continue
+					}
+					for i, e := range phi.Edges {
+						okE, _ := allOrigins(e, isOfferElem)
+						if _, isPhi := e.(*ssa.Phi); isPhi || !okE {
+							continue
+						}
+						nSel++
+						g := edgeGuarded(phi.Block().Preds[i], phi.Block(), in[0].Elem, strictly)
+						c.obI("R07.2", lastInstr(phi.Block().Preds[i]), "encoding-selected-on-strictly-higher-q", g, "an encoding becomes the best one only when its range's q is strictly higher than the best q so far (equal candidates stay with the earlier offer; a lower q never displaces a higher one)", "an encoding can be selected without q > best q")
+					}
+				}
+				c.obRF("R07.2", fe, "encoding-selections", nSel >= 1, "a matching range can select an encoding", "")
+			}
+		} else {
+			c.obRF("R07.2", fe, "encoding-parses-accept", false, "the Accept-Encoding header is parsed once", "")
+		}
 	}
 	// canonical keys for ParseAccept (it indexes the header map directly)
 	for _, fn := range p.LibFuncs() {
@@ -122,6 +179,45 @@ func runC07(c *Ctx) {
 	}
 	c.obRF("R07.4", pa, "parameter-skip-loop", nSkip >= 1, "ParseAccept skips media-type parameters before q=", fmt.Sprintf("%d skip sites", nSkip))
 
+	// the quality recorded for a range is the number its q-value denotes: exactly what expectQuality returned (or the
+	// default 1) — not rounded, clamped or scaled afterwards (two q-values that differ stay different, in the same order)
+	for _, fn := range []*ssa.Function{pa, p.FnOpt("rt/middleware/header.ParseAccept2")} {
+		if fn == nil {
+			continue
+		}
+		nQ := 0
+		for _, st := range fieldStores(fn, acceptSpecT, "Q") {
+			nQ++
+			ok, bad := allOrigins(st.Val, oCall(0, "rt/middleware/header.expectQuality"), func(o Origin) bool {
+				k, isK := o.V.(*ssa.Const)
+				return isK && k.Value != nil && constant.Compare(k.Value, token.EQL, constant.MakeFloat64(1))
+			})
+			c.obI("R07.4", st, "q-stored-as-parsed", ok, "the quality stored for a range is expectQuality's result (or the default 1.0), unaltered", "origin "+describeOrigin(bad))
+		}
+		c.obRF("R07.4", fn, "stores-q", nQ >= 1, "the parser records a quality per range", "")
+	}
+	// after a range has been recorded, the test for the ',' that introduces the next range looks at the rest with its
+	// leading white space skipped ("a;q=0.5 , b": white space may follow a q-value)
+	{
+		var app ssa.Instruction
+		for _, in := range instrs(pa) {
+			if call, ok := in.(*ssa.Call); ok && calleeName(&call.Call) == "builtin append" && typeStr(call.Type()) == "[]"+acceptSpecT {
+				app = call
+			}
+		}
+		nComma := 0
+		if app != nil {
+			for _, ci := range callsIn(pa, "strings.HasPrefix", "strings.CutPrefix") {
+				if k, _ := constString(ci.Common().Args[1]); k != "," || !dominates(app, ci) {
+					continue
+				}
+				nComma++
+				ok, bad := allOrigins(ci.Common().Args[0], oCall(-1, "rt/middleware/header.skipSpace", "strings.TrimLeft", "strings.TrimSpace", "strings.TrimLeftFunc"))
+				c.obI("R07.4", ci, "next-range-comma-after-skipped-space", ok, "the rest of the line is tested for the ',' of the next range only after its leading white space was skipped (white space after a q-value or a parameter does not hide the following ranges)", "the tested rest can be "+describeOrigin(bad)+" (not passed through skipSpace)")
+			}
+		}
+		c.obRF("R07.4", pa, "next-range-comma-test", nComma >= 1, "ParseAccept continues with the next range after a ','", "")
+	}
 	// every line of the header is parsed: the loop over the header's values is left only when they are exhausted
 	{
 		var lines []sliceLoop
@@ -203,6 +299,8 @@ func runC07(c *Ctx) {
 	resultEmpty := factLenPositive(vFieldLoad("rt/middleware.validation", "result", nil), false)
 	if len(rfc) == 1 && len(prm) == 1 {
 		c.obI("R07.5", prm[0], "bind-needs-acceptable-format", guardedBy(prm[0], rfc[0], resultEmpty), "binding (and later the handler) runs only when the 406 gate recorded nothing", "")
+	} else if ord, grd, isTable := stageTable(vr); isTable && len(rfc)+len(prm) == 0 {
+		c.obF("R07.5", vr, "bind-needs-acceptable-format", grd && ord["responseFormat"] < ord["parameters"], "binding (and later the handler) runs only when the 406 gate recorded nothing", "in the table of steps binding is not behind the response-format gate, or a step runs although an error was recorded")
 	} else {
 		c.obRF("R07.5", vr, "stages", false, "validateRequest runs the response-format gate before binding", "")
 	}
@@ -356,6 +454,7 @@ func negotiateSelection(c *Ctx, r1, r2 string) {
 	if len(inner) != 1 || len(outer) != 1 {
 		return
 	}
+	offersByRanges(c, r2, f, outer[0], inner[0])
 	qNonZero := factEqInt(vFieldLoad(acceptSpecT, "Q", nil), 0, false)
 	nSel, nRank := 0, 0
 	ranks := map[string][]int64{}
@@ -491,10 +590,31 @@ func negotiateMatchers(c *Ctx, rule string) {
 		return ok && ia.X == ssa.Value(offers)
 	}
 	// R07.6 matching forms
-	isNormOffer := vOrigins(oCallWhere(-1, "rt/middleware.normalizeOffer", func(n *ssa.Call) bool {
+	isNormOfferCall := vOrigins(oCallWhere(-1, "rt/middleware.normalizeOffer", func(n *ssa.Call) bool {
 		ok, _ := allOrigins(n.Call.Args[0], isOfferElem)
 		return ok
 	}))
+	// … or element i of normalizeOffers(offers), i being the index of the offer under examination (the parameters
+	// stripped once, up front)
+	var offerIdx ssa.Value
+	for _, l := range sliceLoops(f, vIs(offers)) {
+		offerIdx = l.Elem.Index
+	}
+	isNormOffer := func(v ssa.Value) bool {
+		if isNormOfferCall(v) {
+			return true
+		}
+		ad, ok := derefLoad(v)
+		if !ok {
+			return false
+		}
+		ia, ok := ad.(*ssa.IndexAddr)
+		if !ok || offerIdx == nil || ia.Index != offerIdx {
+			return false
+		}
+		all := asCall(ia.X)
+		return all != nil && calleeName(&all.Call) == "rt/middleware.normalizeOffers" && all.Call.Args[0] == ssa.Value(offers)
+	}
 	isSpecValue := func(v ssa.Value) bool {
 		return vFieldLoad(acceptSpecT, "Value", nil)(v) || vFieldLoadO(acceptSpecT, "Value")(v)
 	}
@@ -553,4 +673,22 @@ func negotiateMatchers(c *Ctx, rule string) {
 	}
 	c.obRF(rule, f, "knows-any-range", nStar == 1, "NegotiateContentType knows the */* range", fmt.Sprintf("%d comparisons", nStar))
 	c.obRF(rule, f, "exact-range-compares-normalised-offer", nExact == 1, "an exact range matches by equality with the normalised offer", fmt.Sprintf("%d comparisons", nExact))
+}
+
+// offersByRanges: the negotiation examines the offers in their order (outer loop) and, for each offer, every parsed
+// range (inner loop, never left early). With the strict "better than the best so far" test of the selection this is
+// what makes equal candidates go to the earlier offer, and what lets a later range of higher quality still count.
+func offersByRanges(c *Ctx, rule string, f *ssa.Function, outer, inner sliceLoop) {
+	nested := outer.Body.Block().Dominates(inner.Header) && !inner.Body.Block().Dominates(outer.Header)
+	c.obI(rule, outer.Elem, "offers-outer-ranges-inner", nested, "offers are examined in their order, each against the ranges: between candidates of equal quality (and specificity) the earlier offer wins", "the loop over the ranges is not nested in the loop over the offers (ties would follow the header's order)")
+	if !nested {
+		return
+	}
+	skips := pathExists(f, inner.Body, outer.Test, nil, isOneOf(inner.Test))
+	for _, r := range realReturns(f) {
+		if pathExists(f, inner.Body, r, nil, isOneOf(inner.Test, outer.Test)) {
+			skips = true
+		}
+	}
+	c.obI(rule, inner.Elem, "every-range-examined-per-offer", !skips, "for each offer every range is examined: the loop over the ranges is never left early (a later range of higher quality or specificity still counts)", "a path leaves the loop over the ranges before they are exhausted")
 }
